@@ -52,6 +52,12 @@ public class FP {
     if (x == y) return BoolValue.ValTrue;
     return b(Math.abs(x - y) <= r * Math.max(1.0, Math.max(Math.abs(x), Math.abs(y))));
   }
+  /** pure relative agreement: |a-b| <= rel*max(|a|,|b|) (no absolute floor), or equal */
+  public static Value FRelClose(Value a, Value c, Value rel) {
+    double x = d(a), y = d(c), r = d(rel);
+    if (x == y) return BoolValue.ValTrue;
+    return b(Math.abs(x - y) <= r * Math.max(Math.abs(x), Math.abs(y)));
+  }
   public static Value FStr(Value a) { return new StringValue(Double.toString(d(a))); }
   /** integer value of a double that holds an exact 32-bit integer */
   public static Value FToInt(Value a) { return IntValue.gen((int) d(a)); }
@@ -62,15 +68,18 @@ public class FP {
   /** Phi(x): Marsaglia's Taylor series around 0 for |x| <= 6.5, continued fraction for the tails. */
   static double cdf(double x) {
     if (Double.isNaN(x)) return x;
-    if (x < 0) return 1.0 - cdfPos(-x) ;
+    if (x < 0) return tail(-x);
     return cdfPos(x);
   }
+  /** upper tail Q(a) = 1 - Phi(a), a >= 0, relatively accurate (no cancellation) */
+  static double tail(double a) {
+    if (a < 1.0) return 1.0 - cdfPos(a);       // Q >= 0.158: subtraction is harmless here
+    double t = 0.0;
+    for (int k = 400; k >= 1; k--) t = k / (a + t);
+    return pdf(a) / (a + t);
+  }
   static double cdfPos(double x) { // x >= 0
-    if (x > 6.5) { // upper tail by Lentz-free backward continued fraction: Q = pdf/(x+1/(x+2/(x+3/...)))
-      double t = 0.0;
-      for (int k = 200; k >= 1; k--) t = k / (x + t);
-      return 1.0 - pdf(x) / (x + t);
-    }
+    if (x > 6.5) return 1.0 - tail(x);
     double s = x, term = x, q = x * x;
     for (int n = 1; n < 400; n++) {
       term = term * q / (2 * n + 1);
@@ -80,12 +89,7 @@ public class FP {
     return 0.5 + s * pdf(x);
   }
   /** lower-tail-accurate Phi for x<0 (used by the inverse) */
-  static double cdfAcc(double x) {
-    if (x >= -1.0) return cdf(x);
-    double a = -x, t = 0.0;
-    if (a > 6.5) { for (int k = 200; k >= 1; k--) t = k / (a + t); return pdf(a) / (a + t); }
-    return 1.0 - cdfPos(a);
-  }
+  static double cdfAcc(double x) { return cdf(x); }
   static double inv(double p) {
     if (!(p > 0.0 && p < 1.0)) { if (p == 0.0) return Double.NEGATIVE_INFINITY; if (p == 1.0) return Double.POSITIVE_INFINITY; return Double.NaN; }
     if (p > 0.5) return -inv(1.0 - p);
